@@ -7,6 +7,7 @@ from lib.common import build_props
 
 GROUPS = ['GenStruct', 'GenAsync', 'GenObserve']
 HELPERS = ('resource_tracker import main', 'forkserver import main')
+CAL = {}
 POOL_THREADS = ('_results_handler', '_restart_handler', '_timeout_handler', '_unexpected_death_handler', '_progress_bar_handler',
                 'join_task_queues')
 
@@ -61,7 +62,7 @@ def oracle(rec, strict=True):
         e = out['exc']
         if e['type'] != 'KeyboardInterrupt':
             return f"{where}: the call raised {e['type']}: {e['args'][:140]} instead of KeyboardInterrupt", 'wrong_exception'
-        if out['wall'] > 15:
+        if out['wall'] > 15 + 6.0 * CAL.get(sc['pool']['start_method'], 0.0):
             return f"{where}: KeyboardInterrupt only after {out['wall']:.1f}s", 'slow'
         part = out.get('partial', [])
         exp = S.expected_value(call)
@@ -104,6 +105,7 @@ def run(ctx):
     rng = random.Random(ctx['seed'] + 17)
     t0 = time.time()
     proof = build_props('C17', GROUPS)
+    CAL.update(runner.calibrate())
     quick = ctx['tier'] == 'quick'
     sms = ['fork', 'fork', 'fork', 'forkserver', 'spawn', 'threading']
     bases = [base_scen(rng, k, sms[k % len(sms)]) for k in range(6 if quick else 18)]
@@ -176,6 +178,7 @@ def run(ctx):
 
 
 def replay(payload):
+    CAL.update(runner.calibrate())
     recs = runner.run_many([payload['scenario']], 'replay', jobs=1, keep=True)
     bad, hangs = analyse(recs)
     print("status:", recs[0]['status'])
